@@ -75,3 +75,36 @@ impl RngCore for ZeroWindowRng {
     }
 }
 impl CryptoRng for ZeroWindowRng {}
+
+/// pseudo-random stream in which the harness can make the *next* request all-zero
+pub struct OnDemandZeroRng {
+    inner: SeedRng,
+    pub zero_next: bool,
+}
+impl OnDemandZeroRng {
+    pub fn new(seed: u64) -> Self {
+        OnDemandZeroRng { inner: SeedRng::new(seed), zero_next: false }
+    }
+}
+impl RngCore for OnDemandZeroRng {
+    fn next_u32(&mut self) -> u32 {
+        self.inner.next_u32()
+    }
+    fn next_u64(&mut self) -> u64 {
+        self.inner.next_u64()
+    }
+    fn fill_bytes(&mut self, d: &mut [u8]) {
+        self.inner.fill_bytes(d);
+        if self.zero_next {
+            for b in d.iter_mut() {
+                *b = 0;
+            }
+            self.zero_next = false;
+        }
+    }
+    fn try_fill_bytes(&mut self, d: &mut [u8]) -> Result<(), Error> {
+        self.fill_bytes(d);
+        Ok(())
+    }
+}
+impl CryptoRng for OnDemandZeroRng {}
